@@ -9,11 +9,12 @@
    (overflow flag, Some/None, error kind) that is appended to the status log.
    A panic of any step is the panic of the whole run.
 
-   OPAQUE OPERATIONS: for the opcodes in `opaque_ops` no model is in /verif yet; their `sem` is
-   the specification function of Model/Opaque.v applied to the values of the operands (it does
-   not describe the crate's code). *)
+   OPAQUE OPERATIONS: for the opcodes in `opaque_ops` (wrapping_pow, root: property C13) no model is
+   in /verif yet; their `sem` is the specification function of Model/Opaque.v applied to the
+   values of the operands (it does not describe the crate's code).  mul, div, rem, gcd, add_mod,
+   mul_mod, pow_mod and mul_redc are the models of Model/{Mul,UDiv,Gcd,Modular,Redc}.v. *)
 From RV.Model Require Import Base Word Opaque.
-From RV.Model Require Add Shift Bits Conv Bytes BaseConv Str Float Gen.
+From RV.Model Require Add Shift Bits Conv Bytes BaseConv Str Float Gen Mul UDiv Gcd Modular Redc.
 
 Inductive opcode : Type :=
 (* add.rs *)
@@ -35,11 +36,10 @@ Inductive opcode : Type :=
 | TryFromF64 | WrapFromF64 | SatFromF64 | TryFromF32 | WrapFromF32 | SatFromF32
 (* constants *)
 | CZero | COne | CMin | CMax | Mov
-(* opaque *)
+(* mul.rs, div.rs, gcd.rs, modular.rs; pow.rs and root.rs (opaque) *)
 | WrMul | WrDiv | WrRem | WrPow | Gcd | AddMod | MulMod | PowMod | Root | MulRedc.
 
-Definition opaque_ops : list opcode :=
-  [WrMul; WrDiv; WrRem; WrPow; Gcd; AddMod; MulMod; PowMod; Root; MulRedc].
+Definition opaque_ops : list opcode := [WrPow; Root].
 
 Definition opcode_of (k : Z) : option opcode :=
   match k with
@@ -190,17 +190,18 @@ Definition sem (o : opcode) (bits : Z) (a b c imm : list Z) : sres :=
   | CMin => do r <- Gen.cMIN bits ; wr r
   | CMax => wr (Gen.cMAX bits)
   | Mov => wr a
+  (* ---- mul.rs, div.rs, gcd.rs, modular.rs ---- *)
+  | WrMul => do r <- Mul.wrapping_mul bits a b ; wr r
+  | WrDiv => do r <- UDiv.wrapping_div a b ; wr r
+  | WrRem => do r <- UDiv.wrapping_rem a b ; wr r
+  | Gcd => do r <- Gcd.gcd bits a b ; wr r
+  | AddMod => do r <- Modular.add_mod bits a b c ; wr r
+  | MulMod => do r <- Modular.mul_mod bits a b c ; wr r
+  | PowMod => do r <- Modular.pow_mod bits a b c ; wr r
+  | MulRedc => do r <- Redc.uint_mul_redc bits a b c s ; wr r
   (* ---- opaque: specification functions of Model/Opaque.v ---- *)
-  | WrMul => lift bits (z_wrapping_mul bits (eval a) (eval b))
-  | WrDiv => lift bits (z_wrapping_div (eval a) (eval b))
-  | WrRem => lift bits (z_wrapping_rem (eval a) (eval b))
   | WrPow => lift bits (z_wrapping_pow bits (eval a) (eval b))
-  | Gcd => lift bits (z_gcd (eval a) (eval b))
-  | AddMod => lift bits (z_add_mod (eval a) (eval b) (eval c))
-  | MulMod => lift bits (z_mul_mod (eval a) (eval b) (eval c))
-  | PowMod => lift bits (z_pow_mod bits (eval a) (eval b) (eval c))
   | Root => lift bits (z_root bits (eval a) s)
-  | MulRedc => lift bits (z_mul_redc bits (eval a) (eval b) (eval c) s)
   end.
 
 (* ---------- instructions, decoding ---------- *)
